@@ -170,11 +170,22 @@ def groups_space_dir(ctx):
         yield {"fields": [{"kind": kind, "copy": False, "dirs": ["W"]}], "out": None, "envs": envs}
 
 
+def groups_inside_cache_root(ctx):
+    """inputs that live inside the job's cache root (outputs of an upstream job): the parent directory of such a path is
+    still mounted on its own, read-only unless the input is copied -- the read-write mount of the cache root does not replace it"""
+    envs = [_ev("docker"), _ev("singularity")] + ([_ev("docker", "/r/"), _ev("singularity", "/")] if ctx.thorough else [])
+    for kind in ("pos", "flag", "dir", "rep", "sep"):
+        for copy in (False, True):
+            yield {"fields": [{"kind": kind, "copy": copy, "dirs": ["C"] if kind not in LIST_KINDS else ["C", "A"]}], "out": None, "envs": envs}
+    yield {"fields": [{"kind": "pos", "copy": False, "dirs": ["C"]}, {"kind": "pos", "copy": False, "dirs": ["A"]}], "out": "template", "envs": envs}
+
+
 # ------------------------------------------------------------------------------ native harness
 
 
 def _host_dirs(tmp):
-    return {"A": tmp / "inA", "B": tmp / "inB", "S": tmp / "inA" / "sub", "W": tmp / "in W"}
+    # C: the directory of an upstream job INSIDE the cache root (an upstream node's output fed to a container node)
+    return {"A": tmp / "inA", "B": tmp / "inB", "S": tmp / "inA" / "sub", "W": tmp / "in W", "C": tmp / "cache" / "shell-0123456789abcdef0123456789abcdef"}
 
 
 def _build_task(group, tmp):
@@ -272,7 +283,7 @@ def run_group(group):
     try:
         task, originals, out_host = _build_task(group, tmp)
         cache_root = tmp / "cache"
-        cache_root.mkdir()
+        cache_root.mkdir(exist_ok=True)
         calls = []
         touch = []
 
@@ -471,6 +482,13 @@ def _run(ctx):
         exhaustive=True,
     )
     _drive(ctx, d3, groups_space_dir(ctx))
+    d4 = ctx.domain(
+        "inputs-inside-the-cache-root",
+        bound="one file / directory / list-of-files field (pos, flag, dir, rep, sep; copy_mode any/copy) whose path lies in an upstream job's directory inside the cache root (lists: one element there, one outside), and a two-field task with a templated output, x (docker, singularity)" + (" x roots default, /r/, /" if ctx.thorough else ""),
+        rule="as one-file-field: the parent of the input is mounted on its own (read-only unless copied) next to the read-write cache-root mount",
+        exhaustive=True,
+    )
+    _drive(ctx, d4, groups_inside_cache_root(ctx))
 
 
 def replay(rec):
